@@ -5,6 +5,7 @@ From SV Require Import Fmt.VpkDir Fmt.VpkDirProofs Fmt.VpkName Fmt.VpkNameSplit 
 From SV Require Import Fmt.VpkArchName Fmt.VpkArchNameProofs SM.VpkRefine Fmt.VpkDirV2.
 From SV Require Import Fmt.VpkNameJoin Fmt.VpkNameJoinProofs SM.VpkPlaceTable SM.VpkPlaceTableProofs Fmt.VpkDirProg Fmt.VpkDirProgProofs Fmt.VpkDirRead Fmt.VpkDirReadProofs SM.VpkProperty SM.VpkGenMachine SM.VpkGenMachineProofs.
 From SV Require Import Fmt.VpkNullStr Fmt.VpkNullStrProofs SM.VpkNested SM.VpkNestedProofs SM.VpkApi SM.VpkApiProofs SM.VpkNestedMap SM.VpkNestedMapProofs SM.VpkNestedSim SM.VpkNestedWf SM.VpkPlace SM.VpkPlaceProofs.
+From SV Require Import SM.VpkWriteOrder SM.VpkWriteOrderProofs.
 Import ListNotations.
 Open Scope N_scope.
 
@@ -663,3 +664,92 @@ Theorem c13_generated_machine_example :
   | _, _ => false
   end = true.
 Proof. exact generated_machine_example. Qed.
+
+(** ---- round 5: error paths of FileInfo.write (SM/VpkWriteOrder.v) and the os.path.splitext split ---- *)
+
+(** [write_guarded_t] runs FileInfo.write WITH its validations from two generated tables: the placement table and the rejection table
+    (the method executed with a read-only archive / an index out of range / both, for every combination of the deciding facts: did a
+    validation raise, which one, which stores had been executed by then; a rejected call keeps exactly those stores).  For every table
+    accepted by [rej_table_ok] — every validation that can reject raises before the first store, the mode before the index, a singular
+    VPK ignores the index — it is the guard order and the result codes of the state machine, on all inputs. *)
+Theorem c13_guarded_write_is_model : forall jt pt, rej_table_ok jt = true -> place_table_ok pt = true -> forall crc cf st i d ix,
+  v_chk_idx cf = true ->
+  write_guarded_t jt pt crc cf st i d ix = Some (write_guarded_model crc cf st i d ix).
+Proof. exact write_guarded_is_model. Qed.
+
+(** A rejected write changes neither the archive nor the entry. *)
+Theorem c13_rejected_write_stores_nothing : forall jt pt, rej_table_ok jt = true -> place_table_ok pt = true ->
+  forall crc cf st i d ix st' i' c,
+  v_chk_idx cf = true -> write_guarded_t jt pt crc cf st i d ix = Some (st', i', c) -> c <> rOk -> st' = st /\ i' = i.
+Proof. exact rejected_write_stores_nothing. Qed.
+
+(** The OWrite case of [step] — where the refinement theorem uses "a rejected write changes nothing" — is the method run from the two
+    generated tables. *)
+Theorem c13_write_step_is_generated_tables : forall jt pt, rej_table_ok jt = true -> place_table_ok pt = true -> forall crc cf st k d ix,
+  v_chk_idx cf = true ->
+  step crc cf st (OWrite k d ix) =
+    match alookup k (tbl st) with
+    | None => Some (st, rMissing)
+    | Some i => match write_guarded_t jt pt crc cf st i d ix with
+                | Some (st', i', c) => Some (if c =? rOk then with_tbl st' (aset k i' (tbl st')) else st', c)
+                | None => None
+                end
+    end.
+Proof. exact step_write_is_guarded_tables. Qed.
+
+(** The pinned table is accepted; the table of seeded c13_7 (index validated after `self.crc = new_checksum`) and a table without the
+    "both wrong" rows are rejected. *)
+Theorem c13_rejection_tables_computed :
+  rej_table_ok rej_table_pinned = true /\ rej_table_ok rej_table_late_check = false
+  /\ rej_table_ok (filter (fun r => negb (kind_eqb (j_kind r) KBoth)) rej_table_pinned) = false.
+Proof. exact rej_tables_computed. Qed.
+
+(** Seeded c13_7 followed in the model, for EVERY checksum function, archive, entry and data: in a directory VPK a write of different data
+    with an index out of range is rejected, but the entry keeps the new checksum on the old data — it reads back the old bytes and
+    verify() is false — and writing the same data again with a valid index is taken for "same data" and stores nothing. *)
+Theorem c13_late_index_check_refuted : forall crc cf st i d ix ix2,
+  v_is_dir cf = true -> writable (md st) = true -> idx_ok cf ix = false -> idx_ok cf ix2 = true -> (crc d =? icrc i) = false ->
+  verify_info crc st i = true ->
+  let i' := mkInfo (crc d) (ipre i) (iidx i) (ioff i) (ilen i) in
+  write_guarded_t rej_table_late_check table_pinned crc cf st i d ix = Some (st, i', rBadIndex)
+  /\ read_info st i' = read_info st i /\ verify_info crc st i' = false
+  /\ write_guarded_t rej_table_late_check table_pinned crc cf st i' d ix2 = Some (st, i', rOk).
+Proof. exact late_check_rejected_write_breaks_verify. Qed.
+
+(** Seeded c13_8: the split statement as `os.path.splitext` ([SplitExt], meaning [splitext] = posixpath.splitext).  Not accepted by
+    [split_kind_ok]; 'a/.b' resolves to (folder a, name '.b') while the 3-tuple ('a', '', 'b') — the entry load_dirfile creates — is
+    (folder a, name '', extension b); both are listed as 'a/.b'.  With the split at the last '.' the string resolves to that entry.  A name
+    starting with '.' never loses its first character to the extension; on a name with an inner dot the two splits agree. *)
+Theorem c13_name_forms_splitext_refuted :
+  let s := [97; 47; 46; 98] in
+  split_kind_ok SplitExt = false
+  /\ file_parts_k posix_normpath SplitExt (NStr s) = ([], [97], [46; 98])
+  /\ file_parts_k posix_normpath SplitExt (NTriple [97] [] [98]) = ([98], [97], [])
+  /\ join_k join_table_pinned ([98], [97], []) = Some s
+  /\ join_k join_table_pinned ([], [97], [46; 98]) = Some s
+  /\ file_parts_k posix_normpath (SplitLast 46) (NStr s) = ([98], [97], [])
+  /\ (forall n, splitext (46 :: n) = None \/ exists a b, splitext (46 :: n) = Some (46 :: a, b))
+  /\ file_parts_k posix_normpath SplitExt (NStr [97; 47; 98; 46; 99; 46; 100]) = file_parts_k posix_normpath (SplitLast 46) (NStr [97; 47; 98; 46; 99; 46; 100]).
+Proof. exact name_forms_splitext_refuted. Qed.
+
+(** The whole-property hypotheses plus the rejection table: [c13_property] applies (first conjunct), the write step of the machine is
+    the method run from the generated tables, and a rejected write stores nothing. *)
+Theorem c13_error_paths : forall et cf pt rt g1 g2 prog nk wp rp sk gp jt nc rj,
+  c13_hyps_r5 et cf pt rt g1 g2 prog nk wp rp sk gp jt nc rj = true -> forall (crc : bytes -> N),
+  c13_hyps et cf pt rt g1 g2 prog nk wp rp sk gp jt nc = true
+  /\ (forall st k d ix,
+        step crc cf st (OWrite k d ix) =
+          match alookup k (tbl st) with
+          | None => Some (st, rMissing)
+          | Some i => match write_guarded_t rj pt crc cf st i d ix with
+                      | Some (st', i', c) => Some (if c =? rOk then with_tbl st' (aset k i' (tbl st')) else st', c)
+                      | None => None
+                      end
+          end)
+  /\ (forall st i d ix st' i' c, write_guarded_t rj pt crc cf st i d ix = Some (st', i', c) -> c <> rOk -> st' = st /\ i' = i).
+Proof. exact c13_error_paths_composed. Qed.
+
+Theorem c13_error_paths_hypotheses_satisfiable :
+  c13_hyps_r5 exit_table_pinned ex_cfg table_pinned rtable_pinned goc_pinned goc_pinned del_prog_pinned ncodec_pinned wprog_pinned rprog_pinned
+           (SplitLast 46) gparts_pinned join_table_pinned (ex_ncfg (n_writer (ex_ncfg reader_rstrip))) rej_table_pinned = true.
+Proof. exact c13_hyps_r5_pinned. Qed.
